@@ -406,6 +406,7 @@ fn cmd_run(a: &Args) -> i32 {
             hard_exit: !a.flag("continue-after-hard"),
             light: a.flag("light"),
             sweep_every: a.u64("sweep-every", 1) as usize,
+            allow_stale: a.flag("allow-stale"),
         };
         let coord_pre = match &space {
             Some(sp) => format!("enum n={} base={} full={} idx={}", sp.n, sp.pair_base, sp.full_only, this),
@@ -425,7 +426,7 @@ fn cmd_run(a: &Args) -> i32 {
             }
             None if gen == "script" || gen == "panic" || gen == "weakescape" => {
                 let mode = if gen == "script" { gen::ScriptMode::Reentrant } else if gen == "panic" { gen::ScriptMode::Panic } else { gen::ScriptMode::WeakEscape };
-                let (ops, desc) = gen::script_ops(this, seed, mode);
+                let (ops, desc) = gen::script_ops_ex(this, seed, mode, a.flag("elide-base"));
                 let mut it = ops.into_iter();
                 // after the scripted part, a few random operations on the survivors
                 let tail = if gen == "panic" { 10 + (mix(this, 5) % 10) as usize } else { 6 };
@@ -440,14 +441,14 @@ fn cmd_run(a: &Args) -> i32 {
             None if gen == "layout" => {
                 // C09: the same call sequence under K heap layouts
                 let k = a.u64("layouts", 8) as usize;
-                let src = this % 5;
+                let src = this % 6;
                 let mut cfg0 = cfg.clone();
                 cfg0.class = Class::Full;
                 cfg0.alloc_mode = alloc::MODE_SCATTER;
                 cfg0.hard_exit = false;
                 let (first, srcdesc) = match src {
                     0 => {
-                        let (ops, desc) = gen::family_ops(this / 5, seed, Class::Full, 10);
+                        let (ops, desc) = gen::family_ops(this / 6, seed, Class::Full, 10);
                         let mut it = ops.into_iter();
                         let mut g = |_: &World| it.next();
                         (run::run_history(&cfg0, &mut g, 100_000), format!("family[{}]", desc))
@@ -458,6 +459,16 @@ fn cmd_run(a: &Args) -> i32 {
                         let mut rg = RandGen::new(rc, hseed);
                         let mut g = |w: &World| rg.next(w);
                         (run::run_history(&cfg0, &mut g, 10_000), format!("rand FULL hseed={}", hseed))
+                    }
+                    5 => {
+                        // handle-consuming calls on linked objects (try_unwrap, make_mut in all branches
+                        // and in place, raw round trips, increment/decrement_strong_count)
+                        cfg0.class = Class::Consume;
+                        let hseed = mix(seed ^ 0xC025, this);
+                        let rc = RandCfg { class: Class::Consume, max_objs: 2 + (mix(hseed, 2) % 5) as usize, len: 15 + (mix(hseed, 1) % 50) as usize, weak_bias: 1, consume_bias: 3 };
+                        let mut rg = RandGen::new(rc, hseed);
+                        let mut g = |w: &World| rg.next(w);
+                        (run::run_history(&cfg0, &mut g, 10_000), format!("rand CONSUME hseed={}", hseed))
                     }
                     4 => {
                         // forgotten unadopts: records are a superset of the stored handles, still
@@ -477,7 +488,7 @@ fn cmd_run(a: &Args) -> i32 {
                         // one scripted destructor panic: what is destroyed by the interrupted
                         // operation must not depend on the layout either
                         cfg0.class = Class::Panic;
-                        let (ops, desc) = gen::script_ops(this / 5, seed, gen::ScriptMode::Panic);
+                        let (ops, desc) = gen::script_ops(this / 6, seed, gen::ScriptMode::Panic);
                         let mut it = ops.into_iter();
                         let mut g = |_: &World| it.next();
                         (run::run_history(&cfg0, &mut g, 100_000), format!("panic[{}]", desc))
@@ -523,6 +534,12 @@ fn cmd_run(a: &Args) -> i32 {
                         let rj = run::run_history(&cj, &mut g, 100_000);
                         runs += 1;
                         layouts.insert(rj.layout_digest);
+                        if rj.violations.iter().any(|v| v.known_sig.is_some()) {
+                            // the known C13 finding is evaluated at a destructor start; whether it
+                            // fires can depend on the (legitimately varying) order inside one group
+                            AGG.with(|ag| *ag.borrow_mut().extra.entry("elide_histories_skipped_known_finding".into()).or_insert(0) += 1);
+                            break;
+                        }
                         let diverged = rj.digest != res.digest || rj.inconclusive.is_some();
                         if diverged {
                             res.violations.push(world::Violation {
@@ -604,7 +621,7 @@ fn cmd_run(a: &Args) -> i32 {
                 });
                 (res, format!("diff seed={} idx={} pseed={} len={}", seed, this, pseed, len))
             }
-            None if gen == "deadclone" || gen == "deaddrop" || gen == "deadclonelate" => {
+            None if gen == "deadclone" || gen == "deaddrop" || gen == "deadclonelate" || gen == "deadclonepanic" || gen == "deadcloneafterweak" => {
                 let r = run_child(&gen, this, seed);
                 (r.0, r.1)
             }
@@ -767,6 +784,8 @@ fn cmd_child(a: &Args) -> i32 {
     let mode = match a.get("mode").unwrap_or("deadclone") {
         "deadclone" => gen::ScriptMode::DeadClone,
         "deadclonelate" => gen::ScriptMode::DeadCloneLate,
+        "deadclonepanic" => gen::ScriptMode::DeadClonePanic,
+        "deadcloneafterweak" => gen::ScriptMode::DeadCloneAfterWeak,
         _ => gen::ScriptMode::DeadDrop,
     };
     let idx = a.u64("idx", 0);
@@ -787,6 +806,7 @@ fn cmd_child(a: &Args) -> i32 {
         hard_exit: false,
         light: a.flag("light"),
         sweep_every: 1,
+        allow_stale: false,
     };
     let mut it = ops.into_iter();
     let mut g = |_: &World| it.next();
@@ -832,6 +852,10 @@ fn cmd_scale(a: &Args) -> i32 {
                 .num("build_ms", o.build_ms as u64)
                 .num("collect_ms", o.collect_ms as u64)
                 .num("collect_cpu_us", o.collect_cpu_us)
+                .num("small_before_cpu_us", o.small_before_cpu_us)
+                .num("small_after_cpu_us", o.small_after_cpu_us)
+                .num("small_before_bytes", o.small_before_bytes)
+                .num("small_after_bytes", o.small_after_bytes)
                 .end();
             println!("SCALE {}", line);
             let _ = std::io::stdout().flush();
@@ -865,6 +889,7 @@ fn cmd_replay(a: &Args) -> i32 {
         hard_exit: false,
         light: false,
         sweep_every: 1,
+        allow_stale: a.flag("allow-stale"),
     };
     let mut it = ops.into_iter();
     let mut g = |_: &World| it.next();
